@@ -255,9 +255,9 @@ C01_Clauses(cfg, S) ==
                      \A k \in 1..Len(b.execs) : b.execs[k].arg = b.prep.val /\ b.execs[k].aid /\ b.execs[k].aw = "raw"),
    \* post runs only if the exec phase produced a result without error ...
    postOnlyIf  |-> ForAllBlocks(LAMBDA s, i, b : b.posts # <<>> => PhaseOk(b)),
-   \* ... and always then (unless the context was cancelled meanwhile, where the run may be cut short)
-   postIf      |-> ForAllBlocks(LAMBDA s, i, b :
-                     (PhaseOk(b) /\ ~CancelledBy(s, BlockEnd(s, i))) => b.posts # <<>>),
+   \* ... and always then - also when the context was cancelled meanwhile: post is neither a new attempt
+   \* nor a new node, and no other property allows skipping it after a result was produced
+   postIf      |-> ForAllBlocks(LAMBDA s, i, b : PhaseOk(b) => b.posts # <<>>),
    \* post receives the same store, the prep value and that result
    postArgs    |-> ForAllBlocks(LAMBDA s, i, b :
                      b.posts # <<>> =>
